@@ -7,7 +7,7 @@
 (* latest "def" line.  A mismatch does not stop validation: the differing  *)
 (* fields are printed (DIFF) so every case of the file is examined.        *)
 (***************************************************************************)
-EXTENDS Getopt, GetoptProps, GetoptComp, Json
+EXTENDS Getopt, GetoptProps, GetoptHelp, Json
 
 CONSTANT TraceFile
 
@@ -95,7 +95,14 @@ CheckComp(dl, c) ==
   IN /\ (e.miss => PrintT(ToJson([k |-> "UNVERIFIABLE", id |-> c.id])))
      /\ (df # {} => PrintT(ToJson([k |-> "DIFF", id |-> c.id, fields |-> df, exp |-> e])))
 
-CheckCase(dl, c) == IF c.comp = "" THEN CheckParse(dl, c) ELSE CheckComp(dl, c)
+CheckHelp(dl, c) ==
+  LET cfg == Trace[dl].cfg
+      df  == HelpDiff(cfg, c.hn, c.res)
+  IN df # {} => PrintT(ToJson([k |-> "DIFF", id |-> c.id, fields |-> df \cup HelpDiffParts(cfg, c.hn, c.res.help),
+                                exp |-> HelpDocOf(cfg, c.hn)]))
+
+CheckCase(dl, c) ==
+  IF c.comp = "" THEN CheckParse(dl, c) ELSE IF c.comp = "help" THEN CheckHelp(dl, c) ELSE CheckComp(dl, c)
 
 (* One step consumes a definition line and every case recorded under it.   *)
 (* (One TLC state per case costs milliseconds of level synchronisation;    *)
